@@ -317,3 +317,39 @@ def sany(path):
     ok = p.returncode == 0 and 'Semantic errors' not in out and 'Parse Error' not in out and \
         'Could not' not in out and '*** Errors' not in out
     return ok, out
+
+
+def apalache_inductive(module, deps, init, indinit, inv, workdir, expect_ok=True, timeout=600):
+    """Unbounded safety with Apalache: `inv` holds initially (length 0 from `init`) and is preserved by one step from any state
+    satisfying it (length 1 from `indinit`). Modules are copied to a scratch directory (Apalache resolves INSTANCE/EXTENDS there).
+    Returns wall seconds; raises MachineryError when the outcome differs from `expect_ok`."""
+    t0 = time.time()
+    d = tempfile.mkdtemp(prefix='apa-', dir=workdir)
+    try:
+        for m in [module] + list(deps):
+            src = os.path.join(MODEL_DIR, m + '.tla')
+            if not os.path.exists(src):
+                src = os.path.join(SPEC_DIR, m + '.tla')
+            shutil.copy(src, d)
+        outcomes = []
+        for ini, length in ((init, 0), (indinit, 1)):
+            e = dict(os.environ)
+            e.pop('JAVA_TOOL_OPTIONS', None)
+            try:
+                p = subprocess.run(['apalache-mc', 'check', '--init=' + ini, '--inv=' + inv, '--length=%d' % length, '--out-dir=' + os.path.join(d, 'out'),
+                                    module + '.tla'], cwd=d, stdout=subprocess.PIPE, stderr=subprocess.STDOUT, timeout=timeout, env=e)
+            except (subprocess.TimeoutExpired, OSError) as ex:
+                raise MachineryError('apalache-mc failed to run: %r' % ex)
+            out = p.stdout.decode('utf-8', 'replace')
+            if 'The outcome is: NoError' in out:
+                outcomes.append(True)
+            elif 'The outcome is: Error' in out or 'Checker has found an error' in out and 'outcome' in out:
+                outcomes.append(False)
+            else:
+                raise MachineryError('apalache-mc gave no verdict for %s (%s, length %d):\n%s' % (module, ini, length, out[-2000:]))
+        ok = all(outcomes)
+        if ok != expect_ok:
+            raise MachineryError('Apalache: %s %s inductive for %s (base, step) = %s' % (inv, 'is not' if expect_ok else 'is unexpectedly', module, outcomes))
+        return time.time() - t0
+    finally:
+        shutil.rmtree(d, ignore_errors=True)
